@@ -455,7 +455,7 @@ func (c *Ctx) strLit(s string) string {
 		// bytes of short literals (needed where code converts them to []byte)
 		c.declOnce("strat", "(declare-fun strat (Str Int) Int)\n(assert (forall ((s Str) (i Int)) (! (and (>= (strat s i) 0) (<= (strat s i) 255)) :pattern ((strat s i)))))")
 		for i := 0; i < len(s); i++ {
-			c.decl(fmt.Sprintf("(assert (= (strat %s %d) %d))", n, i, s[i]))
+			c.decl(fmt.Sprintf("(assert (= (strat %s %d) %d)) ;@@STRAT@@", n, i, s[i]))
 		}
 	}
 	return n
@@ -904,6 +904,25 @@ func (o *Obligation) queryVariant(extra []string, variant int) string {
 	}
 	b.WriteString("(check-sat)\n(get-model)\n")
 	q := b.String()
+	if strings.Contains(q, ";@@STRAT@@") {
+		// bytes of string literals: only when something in the query reads string bytes
+		var keep []string
+		uses := false
+		lines := strings.Split(q, "\n")
+		for _, ln := range lines {
+			if !strings.HasSuffix(ln, ";@@STRAT@@") && strings.Contains(ln, "(strat ") && !strings.HasPrefix(ln, "(declare-fun strat ") && !strings.Contains(ln, ":pattern ((strat s i))") {
+				uses = true
+				break
+			}
+		}
+		for _, ln := range lines {
+			if strings.HasSuffix(ln, ";@@STRAT@@") && !uses {
+				continue
+			}
+			keep = append(keep, ln)
+		}
+		q = strings.Join(keep, "\n")
+	}
 	if strings.Contains(q, "@@FBITS-LATER@@") {
 		ax := ""
 		body := strings.Replace(q, "(declare-fun fbits (F) (_ BitVec 64))", "", 1)
